@@ -403,7 +403,8 @@ def later_solves_only_add_constraints(repo, tier, seed):
              "replay": None if ok else {"verdict": "violates-natively", "detail": problems}}]
 
 
-CONTRACTS = [LowBound(), AllMonthsGetVariables(), RunningTotal(3), RunningTotal(6)]
+CONTRACTS = [LowBound(), AllMonthsGetVariables(), RunningTotal(3), RunningTotal(6)] + (
+    [RunningTotal(12), RunningTotal(24)] if os.environ.get("VERIF_TIER") == "thorough" else [])
 EXTRA = [ledger_obligations, later_solves_only_add_constraints]
 TRUSTED = [
     "CBC returns a point that satisfies the model it was given (within its feasibility tolerance); CBC itself is not modelled",
